@@ -4,6 +4,7 @@ import (
 	"encoding/binary"
 	"errors"
 	"fmt"
+	"io"
 )
 
 // HeaderHash
@@ -2366,13 +2367,13 @@ func (m *MetaCode) Decode(d *Decoder) error {
 		return err
 	}
 
-	if length == 0 {
-		return nil
+	if length > uint64(d.buf.Len()) {
+		return io.ErrUnexpectedEOF
 	}
 
 	// Decode the Metadata
 	metadata := make([]byte, length)
-	if _, err = d.buf.Read(metadata); err != nil {
+	if _, err = io.ReadFull(d.buf, metadata); err != nil {
 		return err
 	}
 
@@ -2380,7 +2381,7 @@ func (m *MetaCode) Decode(d *Decoder) error {
 
 	// Decode the Code (remaining bytes)
 	code := make([]byte, d.buf.Len())
-	if _, err = d.buf.Read(code); err != nil {
+	if _, err = io.ReadFull(d.buf, code); err != nil {
 		return err
 	}
 
